@@ -191,12 +191,27 @@ theorem toValAttribute_injective (a b : AttributeV) (h : toValAttribute a = toVa
         rw [hy.1, ih y hy.2]
   rw [this a1 a2 h2]
 
+/-- **Documentation of return values reaches the generator.** The conversion the current source implements
+    (`DocMode.current`, read off `get_doc_comment_for_parameter` by the translator) is the one the property demands: parameters
+    are documented by the `@param` tags, return members by the `@returns` tags (by identifier; an unnamed `@returns` documents
+    the return member of an operation that has exactly one). Holds since the repair of D-08a; with the `@param`-only shape of
+    the pinned tree the flag is false and this theorem does not compile. -/
+theorem return_docs_as_demanded : DocMode.current = .asDemanded := by decide
+
+/-- … hence, for every list of files, converting as implemented is converting as demanded -/
+theorem content_faithful_docs (fs : List ReqFile) : convert DocMode.current fs = convert .asDemanded fs := by
+  rw [return_docs_as_demanded]
+
+/-- the two modes really differ: on `@returns`-documented operations the pre-repair conversion loses the text -/
+example : paramDoc .asImplemented [] "M::I::op" (some { overview := none, params := [], returns := [(none, [.text "x"])], sees := [] }) true true "returnValue" = none
+    ∧ (paramDoc .asDemanded [] "M::I::op" (some { overview := none, params := [], returns := [(none, [.text "x"])], sees := [] }) true true "returnValue").isSome = true := by
+  decide
+
 /-- FULL statement of content faithfulness (not proved as a Lean theorem; established by request_decodes +
-    content_faithful_partial + the byte-exact correspondence of `convert` with the real converter): a description of
-    the program written independently of the converter — `describe` — equals what `fromVal` reads back from the decoded
-    value, including the documentation written for each parameter AND each return value (`DocMode.asDemanded`). On the
-    pinned tree the last part fails (D-08a): the as-implemented conversion differs from the demanded one exactly on
-    operations with `@returns` documentation or a return member named like a documented parameter. -/
+    content_faithful_partial + content_faithful_docs + the byte-exact correspondence of `convert` with the real converter): a
+    description of the program written independently of the converter equals what `fromVal` reads back from the decoded value.
+    What is missing is that independent description (`describe`) for every symbol kind; the former counterexample (D-08a,
+    documentation of return values) is repaired. -/
 def content_faithful_full : Prop :=
   ∀ (fs : List ReqFile) (srcs refs : List SliceFileV),
     convert .asImplemented fs = some (srcs, refs) → convert .asDemanded fs = some (srcs, refs)
@@ -250,4 +265,6 @@ end Slicec.C08
 #print axioms Slicec.C08.sliceFile_roundtrip
 #print axioms Slicec.C08.request_decodes
 #print axioms Slicec.C08.content_faithful_partial
+#print axioms Slicec.C08.return_docs_as_demanded
+#print axioms Slicec.C08.content_faithful_docs
 #print axioms Slicec.C08.toValAttribute_injective
